@@ -25,11 +25,13 @@ func (db *memoryDB) NewIterator(prefix []byte, start []byte) (database.Iterator,
 	buf = append(buf, start...)
 	startString := string(buf)
 
+	prefixString := string(prefix)
+
 	var keys []string
 
-	// Collect all keys in the range [start, end)
+	// Collect all keys that carry the prefix and are not before prefix+start
 	for key := range db.data {
-		if !strings.HasPrefix(key, startString) {
+		if !strings.HasPrefix(key, prefixString) {
 			continue
 		}
 		if strings.Compare(key, startString) >= 0 {
